@@ -39,7 +39,7 @@ TASK: produce THREE INDEPENDENT changes (numbered 1, 2, 3), each of which alone 
 4. Then append a demonstration `#[cfg(test)] mod demo_{low}_k {{ use super::*; ... }}` at the END of src/bin/mstsc-rs.rs (the binary's functions are private) and run it with `cargo test --offline --features mstsc-rs --bin mstsc-rs demo_{low}_k` (add RUSTFLAGS if you use the hooks, and say so). It must FAIL with change k and PASS without it: to check the latter, `git -C {wt} apply -R /tmp/{pid}{n}-change-k.patch`, run, then re-apply. Save the demo module alone as a patch against the CLEAN tree: with the change reversed, `git -C {wt} diff -- src/bin/mstsc-rs.rs > /tmp/{pid}{n}-demo-k.patch`.
 When all three are done: `git -C {wt} checkout -- src` and `rm -rf {wt}/target`.
 
-STYLE for this round: prefer the small classic slips over elaborate "hardenings": a wrong constant or enum value, swapped arguments or fields, a copy-paste of the neighbouring line left unadapted, big- versus little-endian, signed versus unsigned, `<` for `<=`, `&&` for `||`, a mask one bit too wide or too narrow, an index starting at 1, a field read twice or not at all, the wrong variable of two with similar names. At least two of your three changes must be of this kind, and they must still need a specific input to show.
+STYLE for this round: go where the earlier ideas did not. First list for yourself the functions and branches of the relevant files that the ideas already used (see below) do NOT touch, and place your three changes there: an error path or early return, a rarely taken branch (an optional field present, an unusual but legal flag, a second or later occurrence of something that usually happens once), a value computed in one module and consumed in another (one side changed, the other not), state that is set in one call and read in a later one, a loop bound or accumulator that only matters for the second or the last element, a default that is only used when a builder call is left out. Changes may be classic slips or small refactors, but each must live in a function none of the listed ideas modifies, and they must still need a specific input or sequence to show.
 
 These ideas have ALREADY been used for this property — do something different: {' | '.join(used) if used else '(none)'}
 {"One weakness was known and has been repaired already (the thread used to poll the raw socket while a decrypted PDU was buffered in the TLS layer; has_pending_data() now covers it) - re-breaking exactly that by deleting the has_pending_data() call is too obvious; be subtler." if pid == "C20" else ""}
